@@ -9,7 +9,8 @@
 (*  mode "C06": life-cycle steps (Establish, Tick, Renew, SrvInvalidate,    *)
 (*     SrvSweep, legitimate Resume) up to LifeDepth, then ONE attacking     *)
 (*     connection (any Resume variant, any Replay) which ends the behaviour.*)
-(*  mode "C07": any Next07 step up to GenDepth.                             *)
+(*  mode "C07": any Next07 step up to GenDepth; every prefix is printed.     *)
+(*  mode "C07walk": the same, printed at length GenDepth only (-simulate).   *)
 (*                                                                          *)
 (* With VIEW GenView (history hidden, pre-state and last step included) TLC *)
 (* visits every EDGE of the bounded behaviour graph once and prints one     *)
@@ -88,6 +89,8 @@ GenView == <<core, last, prev, used, phase>>
 \* C06: every reachable (state, step) once
 GenView06 == <<core, last, phase>>
 
-Done == IF GenMode = "C06" THEN phase = "done" ELSE Len(hist) >= 1
+Done == IF GenMode = "C06" THEN phase = "done"
+        ELSE IF GenMode = "C07walk" THEN Len(hist) = GenDepth   \* -simulate: only complete walks
+        ELSE Len(hist) >= 1
 EmitTrace == Done => PrintT(ToJson([trace |-> [h |-> hist, triples |-> TripleSeq]]))
 =============================================================================
